@@ -11,7 +11,7 @@ from ..model import AnalysisError, ClassInfo, FuncInfo, Repo, attr_chain, parent
 from ..peval import NO_MATCH, Evaluator, NotEvaluable, Obj, Raised, Sym
 from ..report import RuleRun
 from ..util import node_calls
-from .c10 import _run, real_operation, sym_face
+from .c10 import _run, corner_point, real_operation, sym_face
 from .c18 import dist_hook
 
 PROP = "C20"
@@ -287,6 +287,34 @@ def guard_eval(repo: Repo) -> RuleRun:
         edges = None if n_edges is None else [None] * n_edges
         res = _try(Evaluator(repo=repo, module=finit.module, call_hook=face_hook), finit, [face, [Sym(f"p{i}") for i in range(4)], edges])
         expect(finit, res, bad, f"edges={'None' if edges is None else 'list of ' + str(n_edges)}", ("FaceCreationError",))
+    # corner indexes of the projection API: Python's negative indexes must not wrap around to another corner
+    pc = repo.func("construct.operations.operation.Operation.project_corner")
+    for v, bad in ((-1, True), (0, False), (3, False), (4, False), (7, False), (8, True), (-8, True)):
+        op = real_operation(repo)
+        res = _try(Evaluator(repo=repo, module=pc.module), pc, [op, v, "surface"])
+        expect(pc, res, bad, f"project_corner({v})", ("ValueError", "IndexError", "KeyError", "RuntimeError"))
+        if not bad:
+            hit = [k for k in range(8) if "surface" in (corner_point(op, k).get("projected_to") or [])]
+            r.check(hit == [v], pc, f"project_corner({v}) projects corner {v} only", f"Operation.project_corner({v}) projects corner(s) {hit}", pc.node, key=f"project_corner({v}):target")
+    pe = repo.func("construct.operations.operation.Operation.project_edge")
+    from .c10 import _bind_module_object, build_edge_map
+
+    _ev_map, emap = build_edge_map(repo)
+    for (a, b), bad in (((-1, 3), True), ((3, -1), True), ((0, 1), False), ((3, 7), False), ((7, 4), False), ((8, 0), True), ((0, 8), True), ((0, 2), True), ((-4, 0), True)):
+        op = real_operation(repo)
+        ev = Evaluator(repo=repo, module=pe.module)
+        _bind_module_object(ev, repo, pe, "edge_map", emap)
+        res = _try(ev, pe, [op, a, b, "surface"])
+        expect(pe, res, bad, f"project_edge({a}, {b})", ("ValueError", "IndexError", "KeyError", "RuntimeError", "CornerPairError"))
+    fpe = repo.func("construct.flat.face.Face.project_edge")
+    for v, bad in ((-1, True), (0, False), (3, False), (4, True)):
+        for already in (False, True):
+            face = sym_face(repo, line_cls=repo.cls("construct.edges.Project") if already else None)
+            if already:
+                for e in face.get("edges"):
+                    e.set("label", ["other"])
+            res = _try(Evaluator(repo=repo, module=fpe.module), fpe, [face, v, "surface"])
+            expect(fpe, res, bad, f"Face.project_edge({v}) on {'projected' if already else 'plain'} edges", ("FaceCreationError", "IndexError"))
     # AwareFaceStore.is_disconnected: true as soon as ONE face shares no point with the others
     isd = repo.func("construct.shapes.shell.AwareFaceStore.is_disconnected")
     for flags in ((False,), (True,), (False, False), (True, False), (False, True), (True, True), (False, True, False)):
@@ -448,8 +476,10 @@ def guard_eval(repo: Repo) -> RuleRun:
     sk.set("inner_radius", 2)
     src.set("sketch_1", sk)
     src.set("sketch_2", sk)
-    for rad, bad in ((3, True), (1, False)):
-        expect(ctr, _try(Evaluator(repo=repo, module=ctr.module), ctr, [Sym("cls"), src, rad]), bad, f"inner_radius={rad} (source inner radius 2)", ("ExtrudedRingCreationError",))
+    for rad, bad in ((3, True), (2, True), (1, False)):
+        ev_c = Evaluator(repo=repo, module=ctr.module)
+        ev_c.float_arith = True
+        expect(ctr, _try(ev_c, ctr, [Sym("cls"), src, rad]), bad, f"inner_radius={rad} (source inner radius 2)", ("ExtrudedRingCreationError",))
     fill = repo.func("construct.shapes.cylinder.Cylinder.fill")
     for n, bad in ((8, False), (6, True), (12, True)):
         s = Obj("source")
@@ -574,4 +604,97 @@ def signed_magnitude(repo: Repo) -> RuleRun:
 
 signed_magnitude.rule_id = "C20.SIGNED-MAGNITUDE"
 
-RULES = [one_sided_tol, one_sided_range, guard_eval, guard_table, lifecycle_state, signed_magnitude]
+STRICT_WORDS = re.compile(r"must be (strictly )?(larger|smaller|greater|less|bigger|lower|higher|positive|negative)\b", re.I)
+
+
+def message_strictness(repo: Repo) -> RuleRun:
+    """A guard states its own precondition in the message it raises with. Where the message demands a STRICT relation
+    ('outer radius must be larger than inner', 'must be smaller than source's', 'must be positive') the boundary itself
+    violates the precondition, so the rejecting condition must be true at equality: the condition is evaluated with both
+    sides equal (resp. with the quantity at zero). A guard that lets the boundary through builds the degenerate entity the
+    message exists to prevent (a ring of zero thickness)."""
+    r = RuleRun(PROP, "C20.MESSAGE-STRICTNESS", floor=4, what="guards whose message demands a strict relation ('must be larger / smaller / positive') reject the boundary case (equality) as well")
+    nth: Dict[str, int] = {}
+    for fn in sorted(repo.all_functions(), key=lambda f: f.qualname):
+        for n in ast.walk(fn.node):
+            if not isinstance(n, ast.If):
+                continue
+            raises = [x for x in n.body if isinstance(x, ast.Raise) and x.exc is not None]
+            if not raises:
+                continue
+            msg = " ".join(c.value for c in ast.walk(raises[0].exc) if isinstance(c, ast.Constant) and isinstance(c.value, str))
+            if not STRICT_WORDS.search(msg):
+                continue
+            verdict = _rejects_at_boundary(n.test)
+            key = f"strict#{nth.setdefault(fn.qualname, 0)}"
+            nth[fn.qualname] += 1
+            if verdict is None:
+                raise AnalysisError(f"{fn.qualname}: guard '{ast.unparse(n.test)[:80]}' with the strict message '{msg[:60]}' is not a comparison the rule can evaluate at its boundary")
+            r.check(
+                verdict,
+                fn,
+                f"'{ast.unparse(n.test)[:60]}' rejects the boundary ('{msg[:50]}')",
+                f"{fn.qualname}: the guard '{ast.unparse(n.test)[:80]}' lets the boundary case through although its own message demands a strict relation ('{msg[:80]}'): "
+                "with both quantities equal the degenerate entity (zero thickness / zero size) is built without an error",
+                n,
+                key=key,
+            )
+    return r
+
+
+def _lin(e: ast.expr) -> Optional[Tuple[int, int]]:
+    """(multiples of the compared quantity q, multiples of a small positive tolerance eps) - every named quantity counts as q"""
+    if _is_tol(e):
+        return (0, 1)
+    if isinstance(e, ast.Constant):
+        return (0, 0) if e.value == 0 and not isinstance(e.value, bool) else None
+    if isinstance(e, (ast.Name, ast.Attribute)):
+        return (1, 0)
+    if isinstance(e, ast.UnaryOp) and isinstance(e.op, (ast.USub, ast.UAdd)):
+        v = _lin(e.operand)
+        return None if v is None else ((-v[0], -v[1]) if isinstance(e.op, ast.USub) else v)
+    if isinstance(e, ast.BinOp) and isinstance(e.op, (ast.Add, ast.Sub)):
+        a, b = _lin(e.left), _lin(e.right)
+        if a is None or b is None:
+            return None
+        sg = 1 if isinstance(e.op, ast.Add) else -1
+        return (a[0] + sg * b[0], a[1] + sg * b[1])
+    if isinstance(e, ast.Call):
+        nm = (attr_chain(e.func) or "").split(".")[-1]
+        if nm in ("abs", "fabs") and len(e.args) == 1:
+            v = _lin(e.args[0])
+            if v is not None and v[0] == 0:
+                return (0, abs(v[1]))
+            return None
+        return (1, 0)  # a measured quantity (norm(...), len(...), a property read through a call)
+    return None
+
+
+def _rejects_at_boundary(test: ast.expr) -> Optional[bool]:
+    """Value of a rejecting condition at the boundary of the relation it guards: every compared quantity equal (q), or - when
+    one quantity is compared with zero / a tolerance - that quantity at zero. Sides are linear forms in q and a small positive
+    tolerance eps, so 'a - b < TOL', 'a + TOL > b', 'not b > a', 'x <= 0' are all understood. None if the shape is not."""
+    if isinstance(test, ast.UnaryOp) and isinstance(test.op, ast.Not):
+        v = _rejects_at_boundary(test.operand)
+        return None if v is None else not v
+    if isinstance(test, ast.BoolOp):
+        vals = [_rejects_at_boundary(v) for v in test.values]
+        if any(v is None for v in vals):
+            return None
+        return any(vals) if isinstance(test.op, ast.Or) else all(vals)
+    if isinstance(test, ast.Compare) and len(test.ops) == 1:
+        a, b = _lin(test.left), _lin(test.comparators[0])
+        if a is None or b is None:
+            return None
+        dq, de = a[0] - b[0], a[1] - b[1]
+        if dq != 0 and not (a[0] == 0 or b[0] == 0):
+            return None  # quantities do not cancel and neither side is a pure bound
+        sign = (de > 0) - (de < 0)  # at the boundary q cancels (or is 0): the difference is de * eps
+        op = test.ops[0]
+        return {ast.Lt: sign < 0, ast.LtE: sign <= 0, ast.Gt: sign > 0, ast.GtE: sign >= 0, ast.Eq: sign == 0, ast.NotEq: sign != 0}.get(type(op))
+    return None
+
+
+message_strictness.rule_id = "C20.MESSAGE-STRICTNESS"
+
+RULES = [one_sided_tol, one_sided_range, guard_eval, guard_table, lifecycle_state, signed_magnitude, message_strictness]
